@@ -230,6 +230,7 @@ def gen_case(rng, n_ops, faults=False, crashes=False):
             att = {}
     if me_on and rng.chance(1, 2):
         out.extend(settle(users, ntop))
+    out = with_attachments(rng.fork("att"), out)
     out = with_sys(rng.fork("sys"), out, faults)
     if me_on:
         out = with_me_tags(rng.fork("metags"), out, faults)
@@ -257,6 +258,18 @@ def pick_deluser(r2):
     if k < 9:
         return f"deluser {r2.choice(['S1', 'S2', 'S6'])} user={r2.choice(['U1', 'U2', 'U3'])}{hard}"
     return f"deluser S7 user=X{hard}"
+
+
+def with_attachments(r2, out):
+    """one publish or description update in twenty-five lists attachments (extra.attachments): this stream runs without a media handler -
+    the configuration's `media` section is optional -, so there is nothing to link them to and nothing else changes"""
+    res = []
+    for o in out:
+        w = o.split(" ")
+        if w[0] in ("pub", "setdesc") and len(w) > 2 and w[2] not in ("me", "fnd") and " as=" not in o and r2.chance(1, 25):
+            o += " att=" + r2.choice(["/v0/file/s/abc.jpg", "/v0/file/s/abc.jpg,/v0/file/s/def.png", "http://elsewhere/x", "x"])
+        res.append(o)
+    return res
 
 
 def with_sys(r2, out, faults):
